@@ -961,18 +961,63 @@ def repetition_hazards(grammar, model):
         # not mistaken for a recursion
         return model.conv(e, atomic, (ctx[-1],), top=False)
 
-    # knot symbols stand for non-empty sentences: expand them one level; what is nested deeper is "anything non-empty"
-    some = seq(any1(), anystar())
+    # knot symbols stand for non-empty sentences of the knot rule: replace each by (a character its sentences can start
+    # with) . anything -- an over-approximation that keeps the automata small (prefix-comparability only needs prefixes)
+    def first_set(e, depth=0):
+        """(ranges, nullable) of the first characters of the sentences of a model expression (superset)"""
+        k = e.get("k")
+        if depth > 60:
+            return SIGMA1, True
+        if k == "eps":
+            return [], True
+        if k == "set":
+            return list(e["r"]), False
+        if k == "seq":
+            out, nullable = [], True
+            for x in e["xs"]:
+                r, n = first_set(x, depth + 1)
+                out += r
+                if not n:
+                    nullable = False
+                    break
+            return out, nullable
+        if k == "alt":
+            out, nullable = [], False
+            for x in e["xs"]:
+                r, n = first_set(x, depth + 1)
+                out += r
+                nullable = nullable or n
+            return out, nullable
+        if k in ("star", "opt"):
+            return first_set(e["e"], depth + 1)[0], True
+        if k == "plus":
+            return first_set(e["e"], depth + 1)
+        if k == "tag":
+            return first_set(e["e"], depth + 1)
+        if k == "ref":
+            return first_set(DEFS[e["n"]], depth + 1)
+        if k == "and":
+            return first_set(e["a"], depth + 1)
+        return SIGMA1, True
     body1 = {}
     for nm, sym in PEST_KNOTS.items():
         b = model.rule(nm, True)
-        for s2 in list(PEST_KNOTS.values()) + list(ATOMIC_VARIANT.values()):
-            r = _subst_symbol(b, s2, some)
-            if r is not None:
-                b = r
-        body1[sym] = b
+        rs, _n = first_set(b)
+        rs = [r for r in rs if r[0] < 0x110000] or SIGMA1
+        for s2 in list(PEST_KNOTS.values()):
+            if any(r[0] <= s2 <= r[1] for r in first_set(b)[0]):
+                # the knot can start with another knot (logical_expr -> test -> jp_query / function_expr): add that one's first
+                rs = rs + [r for r in first_set(model.rule([n for n, v in PEST_KNOTS.items() if v == s2][0], True))[0] if r[0] < 0x110000]
+        merged = []
+        for lo, hi in sorted([list(r) for r in rs]):
+            if merged and lo <= merged[-1][1] + 1:
+                merged[-1][1] = max(merged[-1][1], hi)
+            else:
+                merged.append([lo, hi])
+        approx = seq(cset(merged), anystar())
+        body1[sym] = approx
         if sym in ATOMIC_VARIANT:
-            body1[ATOMIC_VARIANT[sym]] = b
+            body1[ATOMIC_VARIANT[sym]] = approx
 
     def expand(x):
         for sym, b in body1.items():
